@@ -136,10 +136,12 @@ def _ref_spread(inter, F, dim, shape):
 
 
 @scenario
-def history(ctx, dim, seq, reset):
+def history(ctx, dim, seq, reset, layout="c"):
+    from checks.c11 import _laid_out
+
     grid = (8, 8) if dim == 2 else (8, 8, 8)
     n = 2
-    E = ctx.array("E0", (dim, *grid))
+    E = _laid_out(ctx, "E0", (dim, *grid), layout)  # the caller's forcing field: any ndarray view
     u = ctx.array("u0", (dim, *grid))
     harness = {"pos": LAYOUTS[dim][0].astype(ctx.real_t), "vel": ctx.array("vb0", (dim, n))}
     k = ctx.scalar("k", default=3.0)
@@ -304,6 +306,9 @@ def main():
                     continue
                 for reset in ((False, True) if n <= 2 else (False,)):
                     chk.add(history, dim=dim, seq=list(seq), reset=reset)
+        for lay in ("interior", "fortran"):
+            for reset in (False, True):
+                chk.add(history, dim=dim, seq=["eval", "step", "eval"], reset=reset, layout=lay)
         chk.add(coefficient_scaling, dim=dim)
         for order in ("AB", "BA"):
             for rs in (False, True):
